@@ -3,7 +3,8 @@ import RSV.Spec.GF256
 # The carrier `GF256` used by the executable models (core Lean only)
 
 Elements are naturals below 256; `+` and `-` are xor, `*` is `gmul` (shift-and-reduce
-modulo 0x11D), `⁻¹` is `a^254` (so `0⁻¹ = 0`, the field convention; the Go code panics on
+modulo 0x11D), `⁻¹` is `a^254` computed by the 13-multiplication chain `ginvChain`
+(so `0⁻¹ = 0`, the field convention; the Go code panics on
 `galOneOver 0` and the models never call it there).
 -/
 namespace RSV
@@ -78,6 +79,10 @@ theorem gpow_lt (a : Nat) (n : Nat) : gpow a n < 256 := by
   | zero => simp [gpow, BF.ppow]
   | succ n ih => exact gmul_lt _ ih
 
+theorem ginvChain_lt {a : Nat} (ha : a < 256) : ginvChain a < 256 := by
+  unfold ginvChain
+  exact gmul_lt _ (gmul_lt _ ha)
+
 /-- carrier of the executable models -/
 structure GF256 where
   val : Nat
@@ -92,7 +97,7 @@ instance : Add GF256 := ⟨fun a b => ⟨a.val ^^^ b.val, Nat.xor_lt_two_pow (n 
 instance : Sub GF256 := ⟨fun a b => ⟨a.val ^^^ b.val, Nat.xor_lt_two_pow (n := 8) a.isLt b.isLt⟩⟩
 instance : Neg GF256 := ⟨fun a => a⟩
 instance : Mul GF256 := ⟨fun a b => ⟨gmul a.val b.val, gmul_lt _ a.isLt⟩⟩
-instance : Inv GF256 := ⟨fun a => ⟨gpow a.val 254, gpow_lt _ _⟩⟩
+instance : Inv GF256 := ⟨fun a => ⟨ginvChain a.val, ginvChain_lt a.isLt⟩⟩
 instance : Div GF256 := ⟨fun a b => a * b⁻¹⟩
 instance : Inhabited GF256 := ⟨0⟩
 instance : Repr GF256 := ⟨fun a _ => repr a.val⟩
@@ -103,7 +108,7 @@ instance : Repr GF256 := ⟨fun a _ => repr a.val⟩
 @[simp] theorem sub_val (a b : GF256) : (a - b).val = a.val ^^^ b.val := rfl
 @[simp] theorem neg_val (a : GF256) : (-a).val = a.val := rfl
 @[simp] theorem mul_val (a b : GF256) : (a * b).val = gmul a.val b.val := rfl
-@[simp] theorem inv_val (a : GF256) : (a⁻¹).val = gpow a.val 254 := rfl
+@[simp] theorem inv_val (a : GF256) : (a⁻¹).val = ginvChain a.val := rfl
 theorem ext {a b : GF256} (h : a.val = b.val) : a = b := by
   cases a; cases b; simp at h; subst h; rfl
 
